@@ -10,6 +10,7 @@ Open Scope Q_scope.
 
 Inductive uspec :=
 | USimple (rg : rgrid) (p : contract_p)
+| UContract (rg : rgrid) (p : contract_p) (mx mn : list take)
 | UStorage (rg : rgrid) (p : storage_p)
 | UTransport (rg : rgrid) (p : transport_p).
 
@@ -24,6 +25,15 @@ Definition mk_unit (g : grid) (u : uspec) : option unit_ :=
           Some {| u_name := cp_name p; u_prob := a;
                   u_dec := if all_b eq0 ec || all_b le0 maxc || all_b ge0 minc then fun x => x else dec_split (rg_T rg);
                   u_tb := tb_contract rg (cp_node p) (contract_pr g rg p) ec minc maxc |}
+      | _, _, _, _ => None
+      end
+  | UContract rg p mx mn =>
+      match simple_contract g rg p, mkvec rg (cp_max p) None true, mkvec rg (cp_min p) None true, mkvec rg (cp_extra p) (Some 0) false with
+      | Some a, Some maxc, Some minc, Some ec =>
+          Some {| u_name := cp_name p;
+                  u_prob := {| ap_lp := add_rows (ap_lp a) (take_all_rows g rg a mx mn); ap_map := ap_map a |};
+                  u_dec := if all_b eq0 ec || all_b le0 maxc || all_b ge0 minc then fun x => x else dec_split (rg_T rg);
+                  u_tb := tb_contract_takes g rg p a maxc minc ec mx mn |}
       | _, _, _, _ => None
       end
   | UStorage rg p =>
@@ -44,6 +54,11 @@ Definition len_is (v : vec) (n : nat) : bool := Nat.eqb (List.length v) n.
 Definition unit_hyps (g : grid) (u : uspec) : bool :=
   match u with
   | USimple rg p =>
+      is_none (rg_minor rg) && len_is (rg_disc rg) (rg_T rg) && all_b ge0 (rg_disc rg) &&
+      match mkvec rg (cp_max p) None true, mkvec rg (cp_min p) None true, mkvec rg (cp_extra p) (Some 0) false with
+      | Some maxc, Some minc, Some ec => len_is maxc (rg_T rg) && len_is minc (rg_T rg) && len_is ec (rg_T rg) && all_b ge0 ec
+      | _, _, _ => false end
+  | UContract rg p _ _ =>
       is_none (rg_minor rg) && len_is (rg_disc rg) (rg_T rg) && all_b ge0 (rg_disc rg) &&
       match mkvec rg (cp_max p) None true, mkvec rg (cp_min p) None true, mkvec rg (cp_extra p) (Some 0) false with
       | Some maxc, Some minc, Some ec => len_is maxc (rg_T rg) && len_is minc (rg_T rg) && len_is ec (rg_T rg) && all_b ge0 ec
@@ -69,7 +84,7 @@ Ltac split_andb := repeat match goal with H : andb _ _ = true |- _ => apply andb
 (* passing the boolean test puts the unit under the instance theorems *)
 Theorem mk_unit_ok g u un : mk_unit g u = Some un -> unit_hyps g u = true -> u_ok un.
 Proof.
-  destruct u as [rg p|rg p|rg p]; cbn [mk_unit unit_hyps]; intros Hm Hh.
+  destruct u as [rg p|rg p mx mn|rg p|rg p]; cbn [mk_unit unit_hyps]; intros Hm Hh.
   - destruct (simple_contract g rg p) as [a|] eqn:Ea; [|discriminate].
     destruct (mkvec rg (cp_max p) None true) as [maxc|] eqn:E1; [|discriminate].
     destruct (mkvec rg (cp_min p) None true) as [minc|] eqn:E2; [|discriminate].
@@ -77,6 +92,15 @@ Proof.
     inversion Hm; subst un. clear Hm.
     split_andb.
     apply (contract_unit_ok g rg p a maxc minc ec); auto using is_none_spec, len_is_spec.
+    + apply all_ge0_nth; auto using len_is_spec.
+    + apply all_ge0_nth; auto using len_is_spec.
+  - destruct (simple_contract g rg p) as [a|] eqn:Ea; [|discriminate].
+    destruct (mkvec rg (cp_max p) None true) as [maxc|] eqn:E1; [|discriminate].
+    destruct (mkvec rg (cp_min p) None true) as [minc|] eqn:E2; [|discriminate].
+    destruct (mkvec rg (cp_extra p) (Some 0) false) as [ec|] eqn:E3; [|discriminate].
+    inversion Hm; subst un. clear Hm.
+    split_andb.
+    apply (contract_takes_unit_ok g rg p a maxc minc ec); auto using is_none_spec, len_is_spec.
     + apply all_ge0_nth; auto using len_is_spec.
     + apply all_ge0_nth; auto using len_is_spec.
   - destruct (storage g rg p) as [a|] eqn:Ea; [|discriminate]. inversion Hm; subst un. clear Hm.
